@@ -121,6 +121,7 @@ type mcDelivery struct {
 	Chain    int // index into net.NodeIds, or -1 = elected by Elect
 	Elect    byte
 	NewRound bool // open round cache.Number+1 (references computed from the live state)
+	TailOnly bool // drive the post-validation tail of cosiHandleFinalization directly
 	TsOffset time.Duration
 	Build    func(m *mcNode, ts uint64) []*common.VersionedTransaction
 	// filled when executed
@@ -175,11 +176,61 @@ func mcDeliver(m *mcNode, d *mcDelivery) *common.Snapshot {
 	idx := mcSignerSet(ids, chainId, m.Node.ConsensusThreshold(ts, true))
 	s.Signature = mcDetCosiSign(m.Net, publics, idx, s.Hash)
 	d.Hash = s.Hash
+	if d.TailOnly {
+		// the tail of cosiHandleFinalization after its validation steps, for
+		// operations whose snapshot-level validation needs state the fixture does
+		// not have (mint: work statistics): takeover lock + persist, AddSnapshot
+		// (TopoWrite -> WriteSnapshot), reloadConsensusState (consensus marker)
+		signers := make([]crypto.Hash, len(idx))
+		for i, k := range idx {
+			signers[i] = ids[k]
+		}
+		for _, tx := range txs {
+			if err := m.Node.lockAndPersistTransaction(tx, true); err != nil {
+				panic(fmt.Errorf("lockAndPersistTransaction(%s): %w", d.Name, err))
+			}
+		}
+		cache, final := chain.StateCopy()
+		if err := cache.ValidateSnapshot(s); err != nil {
+			return s // re-delivery of an already stored snapshot
+		}
+		if err := chain.AddSnapshot(final, cache, s, signers); err != nil {
+			panic(err)
+		}
+		if len(txs) == 1 {
+			if err := m.Node.reloadConsensusState(s, txs[0]); err != nil {
+				panic(err)
+			}
+		}
+		return s
+	}
 	err := chain.cosiHandleFinalization(&CosiAction{Action: CosiActionFinalization, PeerId: m.Net.NodeIds[(d.Chain+8)%7], Snapshot: s, SnapshotHash: s.Hash})
 	if err != nil {
 		panic(fmt.Errorf("cosiHandleFinalization(%s): %w", d.Name, err))
 	}
 	return s
+}
+
+// mcCrMint builds a universal mint of the next batch referencing the last
+// recorded consensus operation (amount fixed; the amount rule is C25's subject).
+func mcCrMint(label string) func(m *mcNode, ts uint64) []*common.VersionedTransaction {
+	return func(m *mcNode, ts uint64) []*common.VersionedTransaction {
+		a := mcCrAcct()
+		batch := m.Node.lastMintDistribution().Batch + 1
+		tx := common.NewTransactionV5(common.XINAssetId)
+		tx.AddUniversalMintInput(batch, common.NewIntegerFromString("89.87671232"))
+		tx.AddScriptOutput([]*common.Address{&a}, common.NewThresholdScript(1), common.NewIntegerFromString("89.87671232"), fixc.Seed64("mint-out:"+label))
+		last, err := m.Store.ReadLastConsensusSnapshot()
+		if err != nil || last == nil {
+			panic(fmt.Sprint("no consensus snapshot ", err))
+		}
+		tx.References = []crypto.Hash{last.Transactions[0]}
+		ver := tx.AsVersioned()
+		if err := ver.SignRaw(m.Net.Signers[0].PrivateSpendKey); err != nil {
+			panic(err)
+		}
+		return []*common.VersionedTransaction{ver}
+	}
 }
 
 // ---- transaction builders against the live store -------------------------------
